@@ -1,6 +1,10 @@
 package main
 
 import (
+	"unsafe"
+
+	"golang.org/x/sys/unix"
+	ziptrans "github.com/polydawn/rio/transmat/zip"
 	"context"
 	"fmt"
 	"os"
@@ -77,7 +81,82 @@ func hostileExec(c *Ctx, op string) {
 	before, _ := Snapshot(sandbox)
 	var res string
 	uf := api.MustParseFilesetUnpackFilter(losslessUnpackStr)
-	if mode == "cli" {
+	if mode == "zip" {
+		// the zip transmat spools the ware into a temp file first: (a) a ware id whose hash part carries path segments must
+		// not steer that file anywhere, (b) temp names seen in one run are planted as symlinks to the victim before the next
+		tmp := filepath.Join(sandbox, "tmp")
+		os.MkdirAll(tmp, 0755)
+		oldTmp := os.Getenv("TMPDIR")
+		os.Setenv("TMPDIR", tmp)
+		defer os.Setenv("TMPDIR", oldTmp)
+		zstream, zerr := encodeZip(hdrs)
+		if zerr != nil {
+			c.EmitR(op, "skip", "skip")
+			return
+		}
+		zpath := filepath.Join(whDir, "ware.zip")
+		os.WriteFile(zpath, zstream, 0644)
+		wh := []api.WarehouseLocation{api.WarehouseLocation("file://" + zpath)}
+		zid, _, _ := safeCall(func() (api.WareID, error) {
+			return ziptrans.Scan(context.Background(), "zip", uf, rio.Placement_Direct, wh[0], rio.Monitor{})
+		})
+		if zid.Hash == "" {
+			zid = api.WareID{Type: "zip", Hash: "3vuuiiEUjwwYaRFuLUXh9Sb3DkTFP4RCnCmRmdEDBT3GZ9mP5ShzmUgGm4hgYEUDjb"}
+		}
+		before, _ = Snapshot(sandbox)
+		ifd, _ := unix.InotifyInit1(unix.IN_NONBLOCK)
+		if ifd >= 0 {
+			unix.InotifyAddWatch(ifd, tmp, unix.IN_CREATE)
+		}
+		run := func(id api.WareID, pm rio.PlacementMode) string {
+			os.RemoveAll(target)
+			_, e, pan := safeCall(func() (api.WareID, error) {
+				return ziptrans.Unpack(context.Background(), id, target, uf, pm, wh, rio.Monitor{})
+			})
+			if pan != "" {
+				c.PropFail("unpack-panic", "zip unpack of a hostile ware / ware id panicked: "+pan, op)
+				return "panic"
+			}
+			if e != nil {
+				return "err " + catOf(e)
+			}
+			return "ok"
+		}
+		res = run(zid, rio.Placement_Direct)
+		// names created in $TMPDIR during that run
+		var seen []string
+		if ifd >= 0 {
+			buf := make([]byte, 65536)
+			for {
+				n, e := unix.Read(ifd, buf)
+				if n <= 0 || e != nil {
+					break
+				}
+				for off := 0; off+unix.SizeofInotifyEvent <= n; {
+					ev := (*unix.InotifyEvent)(unsafe.Pointer(&buf[off]))
+					nameLen := int(ev.Len)
+					name := strings.TrimRight(string(buf[off+unix.SizeofInotifyEvent:off+unix.SizeofInotifyEvent+nameLen]), "\x00")
+					if name != "" {
+						seen = append(seen, name)
+					}
+					off += unix.SizeofInotifyEvent + nameLen
+				}
+			}
+			unix.Close(ifd)
+		}
+		c.H(fmt.Sprintf("zip-tmpnames:%d", len(seen)))
+		for _, n := range seen {
+			os.Remove(filepath.Join(tmp, n))
+			os.Symlink(filepath.Join(victim, "passwd"), filepath.Join(tmp, n))
+		}
+		run(zid, rio.Placement_Direct)
+		run(zid, rio.Placement_Copy)
+		for _, h := range []string{"aaabbbX/../../victim/passwd", "../victim/passwd", "aaa/bbb/../../../neighbour", "/" + filepath.Join(victim, "passwd")} {
+			run(api.WareID{Type: "zip", Hash: h}, rio.Placement_Direct)
+			run(api.WareID{Type: "zip", Hash: h}, rio.Placement_Copy)
+		}
+		os.RemoveAll(tmp)
+	} else if mode == "cli" {
 		cmd := exec.Command(os.Getenv("RIO_BIN"), "unpack", sid.String(), target, "--source=file://"+warePath, "--filters", losslessUnpackStr, "--placer=direct")
 		cmd.Env = os.Environ()
 		out, err := cmd.CombinedOutput()
@@ -111,7 +190,7 @@ func hostileExec(c *Ctx, op string) {
 	outside := func(fs Fileset) Fileset {
 		var o Fileset
 		for _, e := range fs {
-			if e.Name == "target" || strings.HasPrefix(e.Name, "target/") {
+			if e.Name == "target" || strings.HasPrefix(e.Name, "target/") || e.Name == "tmp" || strings.HasPrefix(e.Name, "tmp/") {
 				continue
 			}
 			if e.Name == "" { // the sandbox dir itself: its mtime legitimately changes when `target` is created or replaced
@@ -221,7 +300,10 @@ func hostileEngine(c *Ctx) {
 		{dir("./"), RawHdr{Name: "hl", Typeflag: '1', Link: "@V@/passwd"}},
 		{lnk("x/..", "@V@", 0777, 0), file("pwned")},
 	}
-	for _, hs := range corpus {
+	for i, hs := range corpus {
+		if i%4 == 0 || i < 3 {
+			hostileExec(c, fmt.Sprintf("hostile zip absent %s", hdrsTok(hs)))
+		}
 		for _, m := range []string{"direct", "copy", "cli"} {
 			for _, p := range pres {
 				hostileExec(c, fmt.Sprintf("hostile %s %s %s", m, p, hdrsTok(hs)))
